@@ -160,3 +160,37 @@ func allStringsUTF8(v reflect.Value, depth int) bool {
 	}
 	return true
 }
+
+// probeDidSeqBinding (C04): the data a DID proof is made over binds it to one sequence number. A proof made over sequence s
+// must verify at s (and yield s+1 as the next sequence) and at no other sequence - whatever s is: small, around the byte,
+// two-byte and four-byte boundaries, beyond 2^32 and 2^63. (The replay this prevents would take hundreds of accepted
+// updates of one DID to show up in a run: the binding itself is checked directly, through the module's own Sign/Verify.)
+func (e *Exec) probeDidSeqBinding() {
+	seqs := []uint64{0, 1, 2, 127, 128, 129, 255, 256, 257, 383, 511, 512, 16383, 16384, 65535, 65536, 65537, 1<<31 - 1, 1 << 31, 1<<32 - 1, 1 << 32, 1<<32 + 1, 1<<63 - 1, 1 << 63, 1<<64 - 1}
+	key := e.Env.DidKeys[int(e.S.Seed%uint64(len(e.Env.DidKeys)))]
+	did := e.Env.Dids[int(e.S.Seed%uint64(len(e.Env.Dids)))]
+	docs := []*didtypes.DIDDocument{{Id: did}, e.Env.BuildDoc(&DocSpec{Id: did, VMs: []VMSpec{{Id: did + "#key1", Type: "EcdsaSecp256k1VerificationKey2019", Controller: did, Key: 0}}, Auth: []RelSpec{{Ref: did + "#key1"}}})}
+	for _, doc := range docs {
+		for _, s := range seqs {
+			sig, err := didtypes.Sign(doc, s, key)
+			if err != nil {
+				continue
+			}
+			for _, s2 := range seqs {
+				next, ok := didtypes.Verify(sig, doc, s2, key.PubKey())
+				switch {
+				case s2 == s && !ok:
+					e.viol("C04", "proof.sequence_binding", "", "a DID proof made over sequence %d does not verify at sequence %d", s, s2)
+					return
+				case s2 == s && s != 1<<64-1 && next != s+1:
+					e.viol("C04", "proof.sequence_binding", "", "verifying a DID proof at sequence %d yields %d as the next sequence, not %d", s, next, s+1)
+					return
+				case s2 != s && ok:
+					e.viol("C04", "proof.sequence_binding", "", "a DID proof made over sequence %d also verifies at sequence %d: once accepted, it is acceptable again when the sequence gets there", s, s2)
+					return
+				}
+			}
+		}
+	}
+	e.Stats.Inc("probe.did_sequence_binding")
+}
